@@ -18,7 +18,7 @@ HEADER = ('Require Import PonyV.Base.PyBase PonyV.Model.C01Expr PonyV.Model.C01S
 PROVIDERS = ('sqlite', 'postgres', 'mysql', 'oracle')
 
 
-def run_bools(ctx, exprs, chunk=450, name='cases', prelude='', jobs=14):
+def run_bools(ctx, exprs, chunk=500, name='cases', prelude='', jobs=8):
     """exprs: list of Coq bool terms. Returns the list of indexes whose value is not true."""
     chunks = []
     header = HEADER + prelude
